@@ -3,6 +3,7 @@ use crate::{Scenario, Tier};
 pub mod c01;
 pub mod c17;
 pub mod c19;
+pub mod c20;
 pub mod shared;
 
 pub fn sc(prop: &'static str, tier: Tier, name: &str, desc: &str, max_paths: u64, max_secs: u64, run: impl Fn() + 'static) -> Scenario {
@@ -14,6 +15,7 @@ pub fn all(seed: u64) -> Vec<Scenario> {
     v.extend(c01::scenarios(seed));
     v.extend(c17::scenarios(seed));
     v.extend(c19::scenarios(seed));
+    v.extend(c20::scenarios(seed));
     for p in ["C02", "C03", "C08", "C10"] {
         v.extend(shared::shared(p, seed));
     }
